@@ -539,6 +539,79 @@ def stratum_sequences(chk, n):
 
 
 # ------------------------------------------------------------------------------ run
+def stratum_role_manager_owned_links(chk):
+    """g()/g2() in a matcher ARE the role manager's has_link, whoever put the links there: links added straight on the
+    enforcer's role manager, or held by a role manager the application installed (set_role_manager), with NO grouping rule
+    of that type stored; then one grouping rule is added and removed again.  SPEC: a rule takes part exactly when the matcher
+    is true with g(a, b) = <the current role manager>.has_link(a, b)."""
+    import casbin
+    from casbin.rbac import default_role_manager as drm
+    text = """[request_definition]
+r = sub, obj, act
+[policy_definition]
+p = sub, obj, act
+[role_definition]
+g = _, _
+g2 = _, _
+[policy_effect]
+e = some(where (p.eft == allow))
+[matchers]
+m = g(r.sub, p.sub) && g2(r.obj, p.obj) && r.act == p.act
+"""
+
+    class DirectoryRM(drm.RoleManager):
+        """roles come from a directory the application owns, not from grouping rules"""
+        def __init__(self, table):
+            super().__init__(10)
+            self.table = table
+
+        def has_link(self, a, b, *d):
+            return a == b or (a, b) in self.table
+
+    rules = [["admin", "data_group", "read"], ["bob", "data2", "write"]]
+    subs, objs = ["alice", "bob", "admin", "carol"], ["data1", "data2", "data_group"]
+    n = 0
+
+    def judge(e, label, setup):
+        nonlocal n
+        rm, rm2 = e.get_role_manager(), e.get_named_role_manager("g2")
+        for s_ in subs:
+            for o_ in objs:
+                for a_ in ("read", "write"):
+                    want = any(rm.has_link(s_, r[0]) and rm2.has_link(o_, r[1]) and a_ == r[2] for r in e.get_policy())
+                    got = e.enforce(s_, o_, a_)
+                    n += 1
+                    chk.count(("rm-owned-links", label, s_, o_, a_))
+                    if got != want:
+                        chk.spec_fail(dict(stratum="role-manager-owned-links", setup=setup, state=label, policy=e.get_policy(),
+                                           grouping=e.get_grouping_policy(), request=[s_, o_, a_]), got, want,
+                                      "the decision is not the matcher evaluated with g()/g2() = has_link of the enforcer's current role managers")
+                        return False
+        return True
+
+    for setup in ("add_link on the built-in managers", "set_role_manager(directory-backed manager)"):
+        e = casbin.Enforcer(casbin.Enforcer.new_model(text=text))
+        e.add_policies(rules)
+        if setup.startswith("add_link"):
+            e.get_role_manager().add_link("alice", "admin")
+            e.get_named_role_manager("g2").add_link("data1", "data_group")
+        else:
+            e.set_role_manager(DirectoryRM({("alice", "admin"), ("carol", "admin")}))
+            e.build_role_links()          # the documented way to make a newly installed role manager the one g() consults
+            e.get_named_role_manager("g2").add_link("data1", "data_group")
+        ok = judge(e, "no grouping rule stored", setup)
+        if ok:
+            e.enable_auto_build_role_links(True)
+            e.add_named_grouping_policy("g2", "data2", "data_group")
+            ok = judge(e, "one g2 rule added", setup)
+        if ok:
+            e.remove_named_grouping_policy("g2", "data2", "data_group")
+            ok = judge(e, "that g2 rule removed again", setup)
+        if not ok:
+            break
+    chk.extra.setdefault("strata", {})["role_manager_owned_links"] = n
+
+
 def observe_case(c):
     sh, ast, subs, reqs, text = case_parts(c)
     obs, stored = run_real(text, sh, c["rules"], c["grouping"], c["user_fns"], reqs, c.get("etype"))
@@ -765,6 +838,7 @@ def run(chk, n_asts, maxdepth, vm_n, nonconst_n):
     # the role function g() with TWO rule-side arguments and names that are concatenations of each other
     from .c05 import stratum_confusable_names
     stratum_confusable_names(chk, 40)
+    stratum_role_manager_owned_links(chk)
     # the hypotheses of C02_pipeline_tokens(_ast) hold on the generated cases (wf_tokens, admissible), and
     # Gallina's render agrees with the harness renderer
     hyp = [c for c in tok_cases if c.get("gaps")]
@@ -846,6 +920,15 @@ def replay(chk):
             print(f"VIOLATION property={chk.prop} replay={chk.replay_file}")
             sys.exit(1)
         print("replay passes: implementation agrees with the spec in every world of this sequence")
+        sys.exit(0)
+    if c.get("stratum") == "role-manager-owned-links":
+        chk.spec_failures = []
+        stratum_role_manager_owned_links(chk)
+        if chk.spec_failures:
+            print("replay:", json.dumps(chk.spec_failures[0])[:700])
+            print(f"VIOLATION property={chk.prop} replay={chk.replay_file}")
+            sys.exit(1)
+        print("replay passes: the stratum reports nothing on this tree")
         sys.exit(0)
     if "lines" not in c or "ast" not in c:
         print("replay file names a broken theorem/correspondence, not an input:", json.dumps(rec.get("broken"))[:800])
